@@ -71,6 +71,9 @@ def execute_run(run, scdir, idx, note_fd, out_name="out.pqr", outdir=None, use_m
     if amb.get("out_name"):
         out_name = amb["out_name"]
     argv, paths = corpus.materialise(cfg, indir, outdir, out_name)
+    if run.get("cli_extra") and entry in ("cli", "cli_module"):
+        # options that exist for the command line only (they must not change the verdict)
+        argv = list(run["cli_extra"]) + argv
     if amb.get("junk"):
         for name in ("out.log", "out.pdb", "out.in", "leftover.tmp", out_name + ".bak"):
             with open(os.path.join(outdir, name), "w") as fh:
@@ -643,7 +646,11 @@ def build_scenarios(cfg, prof, seed, tier, prev_cfg):
                                    "n": rng.randint(1, nread), "errno": errno.EIO})
             # else: a fault-free run inside the history
             entry = rng.choice(["run_pdb2pqr", "run_pdb2pqr", "main_driver", "cli", "cli_module"])
-            runs.append({"cfg": cfg, "entry": entry, "faults": faults})
+            one_run = {"cfg": cfg, "entry": entry, "faults": faults}
+            if entry.startswith("cli") and rng.random() < 0.6:
+                one_run["cli_extra"] = ["--log-level", rng.choice(["DEBUG", "WARNING", "ERROR",
+                                                                   "CRITICAL"])]
+            runs.append(one_run)
         add("random", runs)
     return sc
 
@@ -911,6 +918,9 @@ def trigger_scenarios(quick=False):
                 run["faults"] = faults
             sc = {"tag": "trigger", "name": name, "pre": pres[pi], "runs": [run]}
             if ei:
+                lvl = (None, "ERROR", "DEBUG", "CRITICAL", "WARNING")[(k + ei + pi) % 5]
+                if lvl:
+                    run["cli_extra"] = ["--log-level", lvl]
                 # the CLI derives a log-file name from the output path: vary its spelling
                 sc["out_name"] = ("out.pqr", "result", "a.b.pqr", "x y.pqr", "OUT.PQR",
                                   "out.pqr.txt")[(k + pi) % 6]
